@@ -74,4 +74,96 @@ mod leaves {
         kani::cover!(len == 9 && buf[0] == 0xff);
         kani::cover!(len == 2 && buf[0] == 0xfd);
     }
+
+    // ---- script stack primitives (through the cfg(bsv_verif) hook) ----
+    use bsv::verif_hooks::ScriptStack;
+
+    // spec/scriptnum.rs: enc_scriptnum(v) for |v| < 2^31 (sign-magnitude, minimal)
+    fn spec_enc_scriptnum(v: i64) -> Vec<u8> {
+        if v == 0 { return vec![]; }
+        let neg = v < 0;
+        let mut a: u64 = if neg { (-v) as u64 } else { v as u64 };
+        let mut out: Vec<u8> = vec![];
+        let mut i = 0;
+        while a > 0 && i < 5 { out.push((a & 0xff) as u8); a >>= 8; i += 1; }
+        let last = out[out.len() - 1];
+        if last & 0x80 != 0 { out.push(if neg { 0x80 } else { 0x00 }); }
+        else if neg { let l = out.len(); out[l - 1] = last | 0x80; }
+        out
+    }
+    // spec/scriptnum.rs: scriptnum(bytes) for at most 4 bytes
+    fn spec_scriptnum4(b: &[u8]) -> i64 {
+        if b.len() == 0 { return 0; }
+        let mut mag: i64 = 0;
+        let mut i = 0;
+        while i < b.len() { let byte = if i == b.len() - 1 { b[i] & 0x7f } else { b[i] }; mag += (byte as i64) << (8 * i); i += 1; }
+        if b[b.len() - 1] & 0x80 != 0 { -mag } else { mag }
+    }
+    // spec/scriptnum.rs: truthy(bytes)
+    fn spec_truthy(b: &[u8]) -> bool {
+        let mut i = 0;
+        while i < b.len() { if b[i] != 0 && !(i == b.len() - 1 && b[i] == 0x80) { return true; } i += 1; }
+        false
+    }
+
+    /// push_number: Err exactly outside [-(2^31-1), 2^31-1]; otherwise pushes exactly the minimal script number. All i64.
+    #[kani::proof]
+    #[kani::unwind(8)]
+    fn push_number_all_i64() {
+        let v: i64 = kani::any();
+        let mut st: Vec<Vec<u8>> = Vec::new();
+        let r = st.push_number(v);
+        let out_of_range = v > i32::MAX as i64 || v < -(i32::MAX as i64);
+        match r {
+            Ok(()) => { assert!(!out_of_range); assert!(st.len() == 1); assert!(same(&st[0], &spec_enc_scriptnum(v))); }
+            Err(e) => { assert!(out_of_range); assert!(st.len() == 0); std::mem::forget(e); }
+        }
+        kani::cover!(v == -8388608);
+        kani::cover!(v == 2147483647);
+    }
+
+    /// pop_number: every top element of 0..=5 bytes: Ok(scriptnum) iff at most 4 bytes; the element is popped.
+    #[kani::proof]
+    #[kani::unwind(8)]
+    fn pop_number_all_short_elements() {
+        let buf: [u8; 5] = kani::any();
+        let len: usize = kani::any();
+        kani::assume(len <= 5);
+        let mut st: Vec<Vec<u8>> = vec![buf[..len].to_vec()];
+        let r = st.pop_number();
+        match r {
+            Ok(v) => { assert!(len <= 4); assert!(v as i64 == spec_scriptnum4(&buf[..len])); }
+            Err(e) => { assert!(len > 4); std::mem::forget(e); }
+        }
+        assert!(st.len() == 0);
+        kani::cover!(len == 4 && buf[3] == 0x80);
+    }
+
+    /// push_bool: true -> [01], false -> [] (empty byte string).
+    #[kani::proof]
+    #[kani::unwind(4)]
+    fn push_bool_both() {
+        let b: bool = kani::any();
+        let mut st: Vec<Vec<u8>> = Vec::new();
+        assert!(st.push_bool(b).is_ok());
+        assert!(st.len() == 1);
+        if b { assert!(st[0].len() == 1 && st[0][0] == 1); } else { assert!(st[0].len() == 0); }
+    }
+
+    /// pop_bool: script truthiness for every element of 0..=6 bytes (BOUNDED in length: the loop is over the element).
+    #[kani::proof]
+    #[kani::unwind(9)]
+    fn pop_bool_elements_up_to_6_bytes() {
+        let buf: [u8; 6] = kani::any();
+        let len: usize = kani::any();
+        kani::assume(len <= 6);
+        let mut st: Vec<Vec<u8>> = vec![buf[..len].to_vec()];
+        let r = st.pop_bool();
+        match r {
+            Ok(b) => { assert!(b == spec_truthy(&buf[..len])); }
+            Err(e) => { std::mem::forget(e); assert!(false); }
+        }
+        assert!(st.len() == 0);
+        kani::cover!(len == 6 && buf[5] == 0x80 && buf[0] == 0);
+    }
 }
